@@ -54,9 +54,9 @@ func (c14) InitWorker() {
 }
 
 type c14Case struct {
-	N     int    `json:"n"`
-	Graph int    `json:"graph"` // bitmask over ordered pairs
-	Human int    `json:"human"` // -1 none, else index
+	N     int `json:"n"`
+	Graph int `json:"graph"` // bitmask over ordered pairs
+	Human int `json:"human"` // -1 none, else index
 }
 
 var c14Apps = []string{"Ns :: A", "Ns :: B", "Cx", "Dx"}
